@@ -278,7 +278,8 @@ def run_impl(sc, url="ws://example.test/chat", ws_kwargs=None, check_alias=True)
             if how == "sockfail":
                 self._socket_fail("unable to connect")
             if how == "exc":
-                raise ValueError("connect exploded")
+                # also exceptions without any text, and with format characters
+                raise [ValueError("connect exploded"), RuntimeError(), ConnectionResetError(), ValueError("{bad} %s"), OSError()][sc.get("salt", 0) % 5]
             run.sock = (TlsLikeSocket if sc.get("tls_like") else SimSocket)(run)
             return run.sock, None
 
@@ -507,8 +508,8 @@ STEP_CODES = {"timeout": 0, "data": 1, "eof": 2, "oserr": 3, "exc": 4, "selexc":
 ACT_CODES = {"text": 0, "binary": 1, "ping": 2, "pong": 3, "close": 4, "abandon": 5}
 WF_CODES = {"ok": 0, "oserr": 1, "exc": 2}
 OS_ERRORS = [(104, "Connection reset by peer"), (4, "Interrupted system call"), (32, "Broken pipe"),
-             (11, "Resource temporarily unavailable"), (5, "I/O error on {fd} at {0}%s {}"), (110, "Connection timed out")]
-EXC_TEXTS = ["sendall exploded", "bad state {'fd': 7} %d {}", "{", "}"]
+             (11, "Resource temporarily unavailable"), (5, "I/O error on {fd} at {0}%s {}"), (110, "Connection timed out"), ()]
+EXC_TEXTS = ["sendall exploded", "bad state {'fd': 7} %d {}", "{", "}", "", "two\nlines"]
 CN_CODES = {"ok": 0, "sockfail": 1, "exc": 2}
 
 
